@@ -151,3 +151,11 @@ Qed.
 (* C03 on the translated step: never FIRST, MID with discount 1 or LAST with discount 0 (no truncation) -- any state, any action *)
 Lemma src_step_protocol n s a : zlen (s_colors s) = n -> step_ok 1 false (snd (step n s a)) = true.
 Proof. intros L. destruct (step_src n s a L) as [_ E]. rewrite E. apply C03_step_protocol. Qed.
+(* C05: a masked-out colour ends the episode with reward -n; the graph is untouched *)
+Lemma src_invalid_terminates n s a : zlen (s_colors s) = n -> jget false (s_action_mask s) a = false ->
+  snd (step n s a) = termination 1 [- n] /\ s_adj_matrix (fst (step n s a)) = s_adj_matrix s.
+Proof.
+  intros L Hm. destruct (step_src n s a L) as [E1 E2]. rewrite E2.
+  destruct (invalid_terminates n (conv s) a Hm) as [A B]. split; [exact A|].
+  rewrite <- E1 in B. exact B.
+Qed.
